@@ -6,7 +6,7 @@ TITLE = 'Galerkin entries vs independent reference integral (1e-7 of the diagona
 LEVEL = 'exploration'
 RULE = ('a monitor on SingleLayerOperator.bilform records every (test, trial, value, switch) while (i) the serial '
         'bilform_matrix runs on random aspect-bounded meshes (h_x^2/h_t <= 32) of the five shipped curves (default and '
-        'custom tensor initial meshes), (ii) the leaf x quarter and quarter x quarter pairs of the h-h/2 and hierarchical '
+        'custom tensor initial meshes, incl. space grids graded geometrically towards a break point), (ii) the leaf x quarter and quarter x quarter pairs of the h-h/2 and hierarchical '
         'estimators (built with the real DummyElement.uniform_refinement) are evaluated, both values of the exact-on-straight-'
         'panels switch; direct calls of spacetime_integrated_kernel with synthetic interval pairs (incl. partial overlap) are a '
         'further class. Every event is classified from geometry (curve, space relation, time relation, switch); a stratified, '
@@ -23,7 +23,7 @@ ASSUMPTIONS = [
 _SP = ['identical', 'nested-shared-end', 'nested-interior', 'touch-same-piece', 'touch-corner', 'touch-seam',
        'disjoint-same-piece', 'disjoint-other-piece', 'disjoint-nearer-through-seam']
 REQUIRED = {t: ['space:' + s for s in _SP] + ['space:partial-overlap', 'time:equal', 'time:overlap', 'time:touch', 'time:separated',
-                'switch:quad', 'switch:exact', 'source:matrix', 'source:estimator-pairs', 'source:closed-form-direct', 'scale:tiny',
+                'switch:quad', 'switch:exact', 'source:matrix', 'source:estimator-pairs', 'source:closed-form-direct', 'scale:tiny', 'mesh:graded-initial-grid',
                 'curve:UnitSquare', 'curve:PiSquare', 'curve:LShape', 'curve:Circle', 'curve:UnitInterval']
             for t in ('quick', 'thorough')}
 TIMEOUT = {'quick': 1500, 'thorough': 7200}
@@ -40,6 +40,11 @@ def plan(tier, seed):
             specs.append({'name': 'mesh-%s-%d' % (c, k), 'mode': 'mesh', 'curve': c, 'rseed': seed * 613 + k,
                           'n_ops': (24 if tier == 'quick' else 50) + 6 * k, 'custom': k % 3 == 2,
                           'per_cell': 2 if tier == 'quick' else 8, 'cap': 90 if tier == 'quick' else 500})
+    for c in CURVES:
+        # initial space grids graded towards a break point: near, non-touching roots with length ratios 4..32 without any refinement
+        for k in range(1 if tier == 'quick' else 5):
+            specs.append({'name': 'graded-%s-%d' % (c, k), 'mode': 'mesh', 'curve': c, 'rseed': seed * 617 + 50 + k,
+                          'n_ops': 3 + 5 * k, 'custom': 'graded', 'per_cell': 3 if tier == 'quick' else 8, 'cap': 70 if tier == 'quick' else 400})
     specs.append({'name': 'direct', 'mode': 'direct', 'rseed': seed, 'n': 120 if tier == 'quick' else 1500})
     specs.append({'name': 'direct2', 'mode': 'direct', 'rseed': seed + 77, 'n': 120 if tier == 'quick' else 1500})
     return specs
@@ -64,6 +69,8 @@ def run_shard(spec, acc):
                                 time_grid=[0, 1] if rng.random() < 0.6 else [0, 0.5, 1])
     mesh = ls.mesh
     elems = list(mesh.leaf_elements)
+    if spec['custom'] == 'graded':
+        acc.seen('mesh:graded-initial-grid')
     wit0 = {'curve': curve, 'mesh': ls.spec, 'history': ls.history}
     log = slpairs.BilformLog()
     events = []   # (source, exact, test, trial, value)
@@ -92,7 +99,7 @@ def run_shard(spec, acc):
                 log.take()
     finally:
         log.close()
-    if curve == 'UnitSquare' and spec['name'].endswith('-0'):
+    if curve == 'UnitSquare' and spec['name'] == 'mesh-UnitSquare-0':
         # the recorded finding's own witness: a small element next to a corner, a 64 times longer one on the other side
         from src.mesh import Vertex
         gam = mesh.gamma_space
@@ -172,10 +179,10 @@ def run_shard(spec, acc):
         acc.worst_of(cls, err)
         acc.worst_of('reference-disagreement', dis / D)
         if err > TOL:
-            ratio = max(test.h_x / trial.h_x, trial.h_x / test.h_x)
             key = 'entry-inexact:%s:%s:%s' % (sr, tr, 'exact' if exact else 'quad')
-            if geo.piece_of(*test.space_interval) != geo.piece_of(*trial.space_interval) and ratio >= 32 * (1 - 1e-9):
-                key = 'entry-inexact:across-corner:size-ratio>=32'   # recorded finding, see known-findings.txt
+            bound = slpairs.k4_envelope(slpairs.corner_nearness(geo, test.space_interval, trial.space_interval))
+            if bound is not None and err <= bound:
+                key = 'entry-inexact:across-corner:near-singular'   # recorded finding K4, see known-findings.txt; larger deviations keep the class key
             acc.violation(key,
                           '%s: <V 1_trial,1_test> = %.17g, reference %.17g, error %.3e of sqrt(D_test D_trial) (test %r, trial %r, pw_exact=%r)'
                           % (curve, val, ref, err, elem_key(test), elem_key(trial), exact),
